@@ -7,6 +7,7 @@
 package main
 
 import (
+	"bytes"
 	"context"
 	"encoding/hex"
 	"encoding/json"
@@ -67,6 +68,9 @@ type Event struct {
 	T      string `json:"t"` // handoff | decision | deadline | cancel
 	Mine   bool   `json:"mine,omitempty"`
 	Status int    `json:"status,omitempty"`
+	// decision (not mine): which other digest the engine names — "" an unrelated one | prefixed33 |
+	// prefixed64 (byte strings that merely END with this bid's digest) | padded (a zero byte in front)
+	Form string `json:"form,omitempty"`
 }
 type In struct {
 	Tag      string  `json:"tag"`
@@ -89,6 +93,8 @@ type In struct {
 	Earlier []bool `json:"earlier,omitempty"`
 	// what the registry held for the signer at each of those earlier attempts (default: amt_ans)
 	EarlierAmt []Ans `json:"earlier_amt,omitempty"`
+	// text of the error a failing settlement submission returns (store_ok = false)
+	StoreErr string `json:"store_err,omitempty"`
 }
 type Effect struct {
 	T        string `json:"t"` // sign | store | write
@@ -278,6 +284,9 @@ func run(in In) (obs Obs) {
 		ok := storeOK
 		mu.Unlock()
 		if !ok {
+			if in.StoreErr != "" {
+				return common.Hash{}, errors.New(in.StoreErr)
+			}
 			return common.Hash{}, vh.ErrInjected
 		}
 		return common.HexToHash("0x51"), nil
@@ -360,7 +369,16 @@ func run(in In) (obs Obs) {
 				}
 				dg := unhex(in.Bid.Digest)
 				if !ev.Mine {
-					dg = []byte("some-other-digest")
+					switch ev.Form {
+					case "prefixed33":
+						dg = append([]byte{0x7f}, dg...)
+					case "prefixed64":
+						dg = append(bytes.Repeat([]byte{0xab}, 32), dg...)
+					case "padded":
+						dg = append([]byte{0}, dg...)
+					default:
+						dg = []byte("some-other-digest")
+					}
 				}
 				select {
 				case ds.in <- &providerapiv1.BidResponse{BidDigest: dg, Status: providerapiv1.BidResponse_Status(ev.Status)}:
@@ -806,6 +824,10 @@ func main() {
 			b.BidAmount = amt
 		}
 		switch class {
+		case "valid-raw-v": // the recovery id written 0/1, as plain crypto.Sign emits it
+			if len(b.Signature) == 65 && b.Signature[64] >= 27 {
+				b.Signature[64] -= 27
+			}
 		case "alias-octal":
 			// another spelling whose base-8 reading is the signed value, digest and signature kept
 			v, _ := new(big.Int).SetString(b.BidAmount, 10)
@@ -853,6 +875,15 @@ func main() {
 			emit("store-fails", 2, true, mkBid("valid"), "yes", accept, true, false, true)
 			emit("write-fails", 2, true, mkBid("valid"), "yes", accept, true, true, false)
 			emit("accept-spelled-amount", 2, true, mkBid("amount-leading-zero"), "yes", accept, true, true, true)
+			emit("accept-raw-v", 2, true, mkBid("valid-raw-v"), "yes", accept, true, true, true)
+		}
+		// a failing submission, whatever the chain client calls the failure
+		for _, msg := range []string{"failed to estimate gas: execution reverted", "execution reverted: commitment exists", "nonce too low",
+			"replacement transaction underpriced", "already known", "context deadline exceeded", "EOF"} {
+			b := mkBid("valid")
+			in := In{Tag: "store-fails-with", Role: 2, ReadOK: true, Bid: toJ(b), MinAns: yes[0], AmtAns: yes[1], Schedule: accept,
+				SignOK: true, StoreOK: false, WriteOK: true, Selector: sel, Prims: []Prim{prim(b.Digest, b.Signature)}, StoreErr: msg}
+			out.Emit(in, run(in))
 		}
 		// the very same bid again through the same instances, after attempts whose submission failed
 		// (and after ones that succeeded)
@@ -886,7 +917,7 @@ func main() {
 	}
 	// ---- C01: gate matrix (one gate failing at a time, and all pairs on a sample), engine behaviours
 	roles := []int{2, 1, 0, -1, 7}
-	bidClasses := []string{"valid", "amount-leading-zero", "alias-octal", "alias-hex", "alias-underscore", "alias-binary", "tamper-amount", "tamper-block", "bad-digest", "bad-sig-short", "bad-sig-long", "bad-sig-s", "no-digest",
+	bidClasses := []string{"valid", "valid-raw-v", "amount-leading-zero", "alias-octal", "alias-hex", "alias-underscore", "alias-binary", "tamper-amount", "tamper-block", "bad-digest", "bad-sig-short", "bad-sig-long", "bad-sig-s", "no-digest",
 		"fmt-hash", "fmt-hash-empty-entry", "fmt-amount-zero", "fmt-amount-2^64", "fmt-block", "fmt-start", "fmt-end"}
 	allows := []string{"yes", "equal", "no", "call-error", "min-error", "malformed"}
 	scheds := map[string][]Event{
@@ -905,6 +936,10 @@ func main() {
 		"accept-after-deadline": {H, {T: "deadline"}, D(true, 1)},
 		"accept-after-cancel":   {H, {T: "cancel"}, D(true, 1)},
 		"wrong-accept-deadline": {H, D(false, 1), {T: "deadline"}},
+		"suffix33-accept":       {H, {T: "decision", Status: 1, Form: "prefixed33"}},
+		"suffix64-accept":       {H, {T: "decision", Status: 1, Form: "prefixed64"}},
+		"padded-accept":         {H, {T: "decision", Status: 1, Form: "padded"}},
+		"suffix-then-reject":    {H, {T: "decision", Status: 1, Form: "prefixed64"}, D(true, 2)},
 	}
 	var snames []string
 	for k := range scheds {
